@@ -1,7 +1,7 @@
 # C20 - separate documents are isolated, sequentially and across threads.
-# Proof: Props/Properties_C20.v (Sys/Heap.v model; frame theorem for the allocation discipline without the
-# process-wide shared null cells, refuted with a witness for the code as it is; footprints / no_conflict for
-# threads on distinct documents (Sys/Race.v); every mutable static of the compiled library audited
+# Proof: Props/Properties_C20.v (Sys/Heap.v model; frame theorem, locality and schedule independence for the code
+# as it is (fresh nulls, /repo fix b456e5d1); historical witnesses for the shared-null discipline of the tree before
+# that fix (finding D6); disjoint write footprints (Sys/Race.v); every mutable static of the compiled library audited
 # (Gen/Globals.v generated from libqpdf.a by harness/translate_globals.py, Sys/GlobalAudit.v)).
 # Tie: (seq)  random API histories over 2-3 live documents + fresh-parse probes run in-process by
 #             harness/drv_isolation.cc against the extracted model; after EVERY step the dump (unparse + JSON)
@@ -11,8 +11,9 @@
 #      (file) bystander check on real PDF files (processMemoryFile, writeJSON, QPDFWriter, copyForeignObject);
 #      (thr)  N threads x independent jobs under ThreadSanitizer, outputs compared with the solo runs.
 # Environment knobs (experiments only): VERIF_C20_SKIP_THR=1 skips the ThreadSanitizer part (its first run builds
-# /repo a second time with -fsanitize=thread); VERIF_C20_MODEL=fixed compares the library with the model WITHOUT the
-# shared cells (validation of proposed_fixes/shared_static_null.diff on a scratch copy of /repo).
+# /repo a second time with -fsanitize=thread); the model is the one WITHOUT the
+# shared cells... now the default; VERIF_C20_MODEL=old compares the library with the HISTORICAL shared-null model
+# (a scratch copy of /repo with fix b456e5d1 reverted must then agree with it).
 import json, os, re, subprocess
 import common, pdfgen
 
@@ -162,7 +163,7 @@ def gen_history(rng, flavour):
 
 
 CORPUS = [
-    # D6 as in DESIGN section 6: one parsed null made indirect in document 1
+    # finding D6 (fixed by b456e5d1) as in DESIGN section 6: one parsed null made indirect in document 1; kept as regression corpus
     "D,1;D,2;P,1,11,[.n.i1.];P,2,21,<.NK.[.n.i2.].>;M,1,r11/i0",
     # ... then replaced: every parsed null of every document is the integer 7, and destroyed with document 1
     "D,1;D,2;P,1,11,[.n.i1.];P,2,21,<.NK.[.n.i2.].NA.n.>;M,1,r11/i0;O,1,3,I7;X,1",
@@ -232,7 +233,7 @@ def project(hist, d):
 
 def part_seq(chk, drv, runner):
     rng = chk.rng
-    n = 700 if chk.tier == "quick" else 30000
+    n = 500 if chk.tier == "quick" else 30000
     hists = list(CORPUS)
     flav = {}
     for i in range(n):
@@ -244,11 +245,17 @@ def part_seq(chk, drv, runner):
         flav[h] = fl
     lines = ["iso " + h for h in hists]
     impl = common.run_lines(drv, lines, shards=4)
-    # VERIF_C20_MODEL=fixed compares the library with the model WITHOUT the shared cells (used to validate
-    # proposed_fixes/shared_static_null.diff on a scratch copy of /repo); the default is the code as it is
-    mcmd = "iso_fixed " if os.environ.get("VERIF_C20_MODEL") == "fixed" else "iso "
+    # the model of the code as it is ("iso": fresh nulls).  VERIF_C20_MODEL=old compares with the historical
+    # shared-null model instead (scratch copy of /repo with fix b456e5d1 reverted)
+    mcmd = "iso_old " if os.environ.get("VERIF_C20_MODEL") == "old" else "iso "
     model = common.run_lines(runner, [mcmd + h for h in hists], shards=4)
-    fixed = common.run_lines(runner, ["iso_fixed " + h for h in hists], shards=4)
+    old_cache = {}
+
+    def old_model(h):
+        """historical shared-null model on one history (only consulted when the frame fails on the library)"""
+        if h not in old_cache:
+            old_cache[h] = common.run_lines(runner, ["iso_old " + h])[0]
+        return old_cache[h]
     nsteps = 0
     tie = []
     hit_known = 0
@@ -272,19 +279,23 @@ def part_seq(chk, drv, runner):
             results[rr] = results.get(rr, 0) + 1
         bad = frame_violations(h, st)
         same = strip_hash(impl[idx]) == model[idx]
-        fx = parse_steps(fixed[idx])
-        if fx is None or frame_violations(h, fx):
-            chk.violation({"kind": "model-without-shared-cells-violates-frame", "history": h, "model_fixed": fixed[idx][:600]}, no_input=True)
+        if mcmd == "iso ":
+            fx = parse_steps(model[idx])
+            if fx is None or frame_violations(h, fx):
+                chk.violation({"kind": "model-violates-frame (frame_other_docs says it cannot)", "history": h, "model": model[idx][:600]}, no_input=True)
         if bad:
             i, op, key, b, a = bad[0]
-            sig = SIG_SEQ if same else ""
+            # the fixed finding D6 is recognised by the historical model reproducing the library exactly
+            is_d6 = strip_hash(impl[idx]) == (model[idx] if mcmd == "iso_old " else old_model(h))
+            sig = SIG_SEQ if is_d6 else ""
             if sig:
                 hit_known += 1
             rep = {"kind": "property-fails-on-implementation", "part": "seq",
                    "why": "step %d (%s) is an operation of document %s but changed what a caller sees of %s" % (
                        i, op, op.split(",")[1], "a fresh parse" if key == "F" else "document %s (%s)" % (seg_doc(key), key)),
                    "history": h, "step": i, "op": op, "segment": key, "before": b, "after": a,
-                   "changed_segments": len(bad), "model_predicts_the_same": same, "replay": "iso " + h}
+                   "changed_segments": len(bad), "model_predicts_the_same": same,
+                   "historical_shared_null_model_predicts_the_same": is_d6, "replay": "iso " + h}
             # a frame violation on a history WITHOUT null tokens cannot be the known finding: report it first
             if sig or flav.get(h) == "clean":
                 chk.violation(rep, signature=sig)
@@ -409,10 +420,10 @@ def part_thr(chk):
     nthr = 4
     quick = chk.tier == "quick"
     runs = []
-    for k in range(5 if quick else 200):
-        runs.append(("clean", chk.seed * 1000 + k, 6 if quick else 12))
+    for k in range(3 if quick else 200):
+        runs.append(("clean", chk.seed * 1000 + k, 5 if quick else 12))
     for k in range(3 if quick else 60):
-        runs.append(("nulls", chk.seed * 1000 + 500 + k, 6 if quick else 12))
+        runs.append(("nulls", chk.seed * 1000 + 500 + k, 5 if quick else 12))
 
     def one(idx):
         cfg, seed, rounds = runs[idx]
@@ -470,7 +481,7 @@ def part_thr(chk):
     p["schedules"] = 2 * len(runs)
     p["job_kind_distribution"] = kinds
     p["tsan_reports"] = counts
-    p["model_predicted_conflicts"] = {"clean": "none (threads_disjoint_footprints)", "nulls": "the shared null cell (race_on_shared_null_refuted)"}
+    p["model_predicted_conflicts"] = {"clean": "none (threads_disjoint_footprints)", "nulls": "none (threads_disjoint_footprints; the shared null cell is gone since b456e5d1)"}
 
 
 # ------------------------------------------------------------------ bystander oracle on real files
@@ -485,8 +496,8 @@ def part_file(chk, drv):
     os.makedirs(wd, exist_ok=True)
     files = make_pdfs(wd)
     allf = files["clean"] + files["nulls"]
-    nruns = 40 if chk.tier == "quick" else 1500
-    nsteps = 25 if chk.tier == "quick" else 40
+    nruns = 30 if chk.tier == "quick" else 1500
+    nsteps = 20 if chk.tier == "quick" else 40
     lines = []
     for k in range(nruns):
         fs = [chk.rng.choice(allf) for _ in range(3)]
@@ -550,9 +561,12 @@ def run(chk):
                        "~QPDF, write, JSON export) run by the real library and by the extracted heap model; after every call the dumps of all "
                        "other documents, of handles obtained from them and of two fresh parses must be unchanged; non-trivial = history with "
                        ">= 4 performed calls on which the frame held and the model agrees, distinct by history text")
-    part_seq(chk, drv, runner)
-    part_file(chk, drv)
-    part_thr(chk)
+    import time
+    for name, fn in (("seq", lambda: part_seq(chk, drv, runner)), ("file", lambda: part_file(chk, drv)), ("thr", lambda: part_thr(chk))):
+        t0 = time.time()
+        fn()
+        if name in chk.cov["parts"]:
+            chk.cov["parts"][name]["wall_s"] = round(time.time() - t0, 1)
     chk.cov["rule"] += ("; file: 3 live documents opened from generated files, random public-API mutations of one of them per step (catalog keys, new indirect objects, "
                         "replaceObject, page rotate/remove, addPage and copyForeignObject FROM another live document, QPDFWriter in 6 modes, JSON export, updateFromJSON, "
                         "destroy+reopen), complete JSON of every other document and of a freshly opened file hashed after every step; thr: %s" % "4 (TSan) and 8 (plain) threads x 6-12 jobs each (object-API build, open+JSON, open+write in 7 modes, JSON round trip, "
